@@ -127,6 +127,13 @@ def replay_bin(rec, ctx, np):
                 fails.append(('bindown-avg', 'got %s want %s' % (np.asarray(m).tolist(), (bs / pf).tolist())))
             if abs(float(np.asarray(s).sum()) - float(a.sum())) > 1e-9:
                 fails.append(('bindown-sum-conserves', 'total %r after, %r before' % (float(np.asarray(s).sum()), float(a.sum()))))
+            # digital numbers as expose returns them: an unsigned 8-bit frame close to saturation.  Summing is linear, so the
+            # exact bin sums of a + K are the specification's bin sums + K * (samples per bin) -- far above 255
+            K = 255 - int(a.max())
+            if a.min() + K >= 0:
+                si = np.asarray(detector.bindown((a + K).astype(np.uint8), fac, 'sum'))
+                if si.shape != coarse or not np.array_equal(si.astype(np.float64), bs + K * pf):
+                    fails.append(('bindown-sum-uint8', 'summing a uint8 frame: got %s (%s) want %s' % (si.tolist(), si.dtype, (bs + K * pf).tolist())))
             const = np.full(shape, 3.25)
             if not np.allclose(detector.bindown(const, fac, 'avg'), 3.25, rtol=1e-13):
                 fails.append(('bindown-avg-level', 'average of a constant is not the constant'))
